@@ -29,6 +29,9 @@ def dispatch : Sexp → Except String Sexp
   | .list [.atom "graph.squash", .str ext, .list (.atom "import" :: imp), .list (.atom "steps" :: steps), .str key, .atom d] =>
     GraphOps.squashOp ext imp steps key (d.toNat?.getD 0)
   | .list (.atom "search.sort" :: .atom e :: entries) => GraphOps.searchSort (e == "true") entries
+  | .list (.atom "render.blocks" :: .str ext :: bs) => do
+    let gs ← bs.mapM Codec.gblock?
+    return Codec.exceptS Sexp.str (Render.blocksSparse ext gs)
   | other => .error s!"unknown request {other.toStr.take 80}"
 
 partial def loop (h : IO.FS.Stream) (out : IO.FS.Stream) : IO Unit := do
